@@ -22,7 +22,8 @@ RULE = ("notes = names (7 letters x every '#'/'b' string up to length 4 in all o
         "channels -3..18 through every setter; malformed names from Hypothesis text and the C01 near-miss grammar, bare "
         "and with an octave suffix. Non-trivial: name with an accidental (incl. spellings that cross the octave "
         "boundary, Cb / B#), pair of different letters, detune != 0, bound value outside the range, malformed string "
-        "sharing a valid prefix.")
+        "sharing a valid prefix."
+        " Also: the same Note object reused across Hz conversions with different standard pitches; velocity / channel bounds together with the 'Name-octave' text form; a coverage-guided atheris campaign over name-like text.")
 ASSUMPTIONS = [
     "'printed form' is repr(note), a quoted Python string literal; it is unquoted with ast.literal_eval before being fed back",
     "malformed names are non-empty strings without '-' that do not match [A-G][#b]*, alone or followed by '-<int>' "
